@@ -4,12 +4,16 @@ CONSTANTS
   Roles = {"server", "client"}
   Limits = {0}
   MaxFrames = 4
+  JudgeRsv1NonFirst = TRUE
   Family = "framing"
   Alpha <- GenAlpha
   Probe <- Probes
   AcceptTopBit = FALSE
   LimitPerFrame = FALSE
   PongEmpty = FALSE
+  Compress = {FALSE}
+  Rsv1Shadows = FALSE
+  Rsv1Anywhere = FALSE
   BufSizes = {0}
   CtlNeedsBuffer = FALSE
 INVARIANTS Emit
